@@ -60,7 +60,13 @@ T_SerPop == SerPop /\ Out(IF subq = <<>> THEN <<>>
 T_SerRun == SerRun /\ Out(<<[e |-> "consume", t |-> cur, ok |-> B(RunOk(cur))]>>)
 T_Body == Body /\ Out(<<[e |-> "complete", t |-> cur, ok |-> B(fut[cur] = "ok"), held |-> Sorted(rmap)]>>)
 T_Remove == RemoveResults /\ Out(<<[e |-> "removed", held |-> Sorted(rmap')]>>)
-T_Interrupt == Interrupt /\ Out(<<[e |-> "int"]>>)
+(* An interrupt while the plan is being made (before the try block) leaves run_tasks at once: the plan hook has *)
+(* already reported, nothing is closed.                                                                         *)
+T_Interrupt == Interrupt /\ IF pc = "plan"
+                            THEN /\ l + 3 <= Len(Ev) /\ Ev[l + 1].e = "plan" /\ Ev[l + 2] = [e |-> "int"]
+                                 /\ Ev[l + 3] = [e |-> "outcome", kind |-> "raise", exc |-> "KeyboardInterrupt"]
+                                 /\ l' = l + 3
+                            ELSE Out(<<[e |-> "int"]>>)
 T_Cancel == Cancel /\ Out(<<[e |-> "cancelled"]>>)
 T_DrainCheck == DrainCheck /\ Out(<<>>)
 T_Stop == Stop /\ Out(<<[e |-> "stopped"]>>)
